@@ -164,8 +164,6 @@ class State:
 
     # ---- path condition
     def assume(self, f):
-        if isinstance(f, V.ForallGoal):
-            f = f.universal()
         if self.capture is not None:
             if isinstance(f, SBool):
                 f = f.e
@@ -294,16 +292,6 @@ class State:
     # ---- obligations
     def oblige(self, name, formula, kind="post"):
         """Record and check `pc => formula`; afterwards assume it."""
-        if isinstance(formula, V.ForallGoal):
-            g = formula
-            if isinstance(g.lo, int) and isinstance(g.hi, int):
-                return self.oblige(name, g.universal(), kind)
-            j0 = self.fresh_int("any")  # universal generalisation: j0 occurs nowhere else
-            if g.hints is not None:
-                g.hints(j0)
-            ob = self.oblige(name, V.implies(V.both(g.lo <= j0, j0 < g.hi), g.body(j0)), kind)
-            self.assume(g.universal())
-            return ob
         key = (name, self.path_key())
         if isinstance(formula, SBool):
             formula = formula.e
